@@ -1,5 +1,9 @@
 (** C09 — the nested theorem: for every well-formed object tree (arrays and dictionaries nested
-    arbitrarily, all leaf classes)   parse (ser raw_name v) = Some (norm v).
+    arbitrarily, all leaf classes)   parse (ser esc_iso v) = Some (norm v).
+    The development is generic in the name emitter [nm] and the names [nok] it can carry (Section
+    Gen: the only thing asked of [nm] is that one emitted name followed by a writer continuation
+    lexes back as that name); instantiated for the repaired writer ([esc_iso], every name of
+    bytes) and, as a record, for the writer before the repair ([raw_name], regular names).
 
     Two layers, each in continuation style so that arrays/dictionaries compose:
       1. bytes -> tokens:  [Lexes (ser v ++ rest) (toks v) rest]  whenever [rest] is empty or starts
@@ -74,13 +78,19 @@ Proof. reflexivity. Qed.
 Lemma ser_elems_cons2 : forall f a b r, ser_elems f (a :: b :: r) = f a ++ 32 :: ser_elems f (b :: r).
 Proof. reflexivity. Qed.
 
+Section Gen.
+Variable nm : bytes -> bytes.
+Variable nok : bytes -> bool.
+Hypothesis Hnm : forall n rest, nok n = true -> good_rest rest -> lex1 (47 :: nm n ++ rest) = (TName n, rest).
+Local Notation wfg := (wf_gen nok).
+
 (** the statement proved by induction over the tree *)
 Definition LexP (v : obj) : Prop :=
-  wf v = true -> forall rest, good_rest rest -> Lexes (ser raw_name v ++ rest) (toks v) rest.
+  wfg v = true -> forall rest, good_rest rest -> Lexes (ser nm v ++ rest) (toks v) rest.
 
 Lemma lexes_ref : forall n g, LexP (ORef n g).
 Proof.
-  intros n g W rest G. cbn [wf] in W. apply andb_true_iff in W. destruct W as [Wn Wg].
+  intros n g W rest G. cbn [wf_gen] in W. apply andb_true_iff in W. destruct W as [Wn Wg].
   cbn [ser toks]. rewrite <- app_assoc. cbn [app]. rewrite <- app_assoc. cbn [app].
   eapply Lexes_tok with (r := 32 :: dec g ++ 32 :: 82 :: rest).
   { rewrite lex1_pos_body. apply (number_body_int false n); [repeat split; discriminate|].
@@ -100,8 +110,8 @@ Qed.
 Lemma lexes_arr_end : forall rest, Lexes (93 :: rest) [TArrE] rest.
 Proof. intro. eapply Lexes_tok; [reflexivity | reflexivity | cbn [length]; lia | apply Lexes_nil]. Qed.
 
-Lemma lexes_elems : forall l, Forall LexP l -> forallb wf l = true -> forall rest,
-  Lexes (ser_elems (ser raw_name) l ++ 93 :: rest) (flat_map toks l ++ [TArrE]) rest.
+Lemma lexes_elems : forall l, Forall LexP l -> forallb wfg l = true -> forall rest,
+  Lexes (ser_elems (ser nm) l ++ 93 :: rest) (flat_map toks l ++ [TArrE]) rest.
 Proof.
   induction 1 as [|a r Pa Pr IH]; intros W rest.
   - apply lexes_arr_end.
@@ -117,23 +127,23 @@ Qed.
 
 Lemma lexes_arr : forall l, Forall LexP l -> LexP (OArr l).
 Proof.
-  intros l H W rest G. cbn [wf] in W. apply andb_true_iff in W. destruct W as [W _].
+  intros l H W rest G. cbn [wf_gen] in W. apply andb_true_iff in W. destruct W as [W _].
   cbn [ser toks]. rewrite <- app_comm_cons, <- app_assoc. cbn [app].
-  eapply Lexes_tok with (r := ser_elems (ser raw_name) l ++ 93 :: rest);
+  eapply Lexes_tok with (r := ser_elems (ser nm) l ++ 93 :: rest);
     [reflexivity | reflexivity | cbn [length]; lia|].
   apply lexes_elems; assumption.
 Qed.
 
-Lemma ser_entries_cons : forall nm kv l, ser_entries nm (kv :: l) = ser_entry nm kv ++ ser_entries nm l.
+Lemma ser_entries_cons : forall kv l, ser_entries nm (kv :: l) = ser_entry nm kv ++ ser_entries nm l.
 Proof. reflexivity. Qed.
 
 Lemma good_rest_entries : forall (L : list (bytes * bytes)) rest,
-  good_rest (ser_entries raw_name L ++ 10 :: rest).
+  good_rest (ser_entries nm L ++ 10 :: rest).
 Proof. intros [|kv L] rest; cbn; auto. Qed.
 
 Lemma lexes_entries : forall L, Forall (fun kv => LexP (snd kv)) L ->
-  forallb (fun kv => regular_name (fst kv) && wf (snd kv)) L = true -> forall rest,
-  Lexes (ser_entries raw_name (map (on_snd (ser raw_name)) L) ++ 10 :: 62 :: 62 :: rest)
+  forallb (fun kv => nok (fst kv) && wfg (snd kv)) L = true -> forall rest,
+  Lexes (ser_entries nm (map (on_snd (ser nm)) L) ++ 10 :: 62 :: 62 :: rest)
         (flat_map entry_toks L ++ [TDictE]) rest.
 Proof.
   induction 1 as [|kv L Pkv PL IH]; intros W rest.
@@ -142,11 +152,11 @@ Proof.
   - cbn [forallb] in W. apply andb_true_iff in W. destruct W as [Wkv WL].
     apply andb_true_iff in Wkv. destruct Wkv as [Wk Wv].
     cbn [map flat_map]. rewrite ser_entries_cons. unfold ser_entry, on_snd at 1 2. cbn [fst snd].
-    unfold raw_name at 1. unfold entry_toks at 1.
+    unfold entry_toks at 1.
     rewrite <- !app_assoc. cbn [app]. rewrite <- !app_assoc. cbn [app].
     apply Lexes_ws; [reflexivity|].
     eapply Lexes_tok.
-    { apply lex1_name; [exact Wk | apply good_rest_sp]. }
+    { apply Hnm; [exact Wk | apply good_rest_sp]. }
     { reflexivity. }
     { apply cons_app_longer. }
     apply Lexes_ws; [reflexivity|].
@@ -162,9 +172,9 @@ Qed.
 
 Lemma lexes_dict : forall l, Forall (fun kv => LexP (snd kv)) l -> LexP (ODict l).
 Proof.
-  intros l H W rest G. cbn [wf] in W.
+  intros l H W rest G. cbn [wf_gen] in W.
   rewrite ser_dict, toks_dict. rewrite <- !app_comm_cons. rewrite <- app_assoc. cbn [app].
-  eapply Lexes_tok with (r := ser_entries raw_name (map (on_snd (ser raw_name)) (sort_kv l)) ++ 10 :: 62 :: 62 :: rest);
+  eapply Lexes_tok with (r := ser_entries nm (map (on_snd (ser nm)) (sort_kv l)) ++ 10 :: 62 :: 62 :: rest);
     [reflexivity | reflexivity | cbn [length]; lia|].
   apply lexes_entries; [apply sort_kv_Forall; exact H | apply forallb_sort_kv; exact W].
 Qed.
@@ -172,35 +182,35 @@ Qed.
 Lemma lexes_ser : forall v, LexP v.
 Proof.
   induction v using obj_ind'; try (apply lexes_arr; assumption); try (apply lexes_dict; assumption);
-    try apply lexes_ref; intros W rest G; cbn [wf] in W.
-  - apply (Lexes_one (ser raw_name ONull)); [apply lex_ser_null; exact G | reflexivity | discriminate].
-  - apply (Lexes_one (ser raw_name (OBool b))); [apply lex_ser_bool; exact G | reflexivity | destruct b; discriminate].
-  - apply (Lexes_one (ser raw_name (OInt z))); [apply lex_ser_int; assumption | reflexivity | apply dec_z_nonempty].
-  - apply (Lexes_one (ser raw_name (OReal n m))); [apply lex_ser_real; assumption | | apply ser_real_nonempty].
+    try apply lexes_ref; intros W rest G; cbn [wf_gen] in W.
+  - apply (Lexes_one (ser nm ONull)); [apply lex_ser_null; exact G | reflexivity | discriminate].
+  - apply (Lexes_one (ser nm (OBool b))); [apply lex_ser_bool; exact G | reflexivity | destruct b; discriminate].
+  - apply (Lexes_one (ser nm (OInt z))); [apply lex_ser_int; assumption | reflexivity | apply dec_z_nonempty].
+  - apply (Lexes_one (ser nm (OReal n m))); [apply lex_ser_real; assumption | | apply ser_real_nonempty].
     unfold real_tok. destruct (m mod 1000000 =? 0); reflexivity.
-  - apply (Lexes_one (ser raw_name (OStr s))); [apply lex_ser_str | reflexivity | discriminate].
-  - apply (Lexes_one (ser raw_name (OHex s))); [apply lex_ser_hex; exact W | reflexivity | discriminate].
-  - apply (Lexes_one (ser raw_name (OName n))); [apply lex_ser_name; assumption | reflexivity | discriminate].
+  - apply (Lexes_one (ser nm (OStr s))); [apply lex_ser_str | reflexivity | discriminate].
+  - apply (Lexes_one (ser nm (OHex s))); [apply lex_ser_hex; exact W | reflexivity | discriminate].
+  - apply (Lexes_one (ser nm (OName n))); [cbn [ser]; rewrite <- app_comm_cons; apply Hnm; assumption | reflexivity | discriminate].
 Qed.
 
 (** continuation form on [lex_all] itself *)
-Lemma lex_all_ser : forall v rest f, wf v = true -> good_rest rest -> (length (toks v) <= f)%nat ->
-  lex_all f (ser raw_name v ++ rest) = toks v ++ lex_all (f - length (toks v)) rest.
+Lemma lex_all_ser_gen : forall v rest f, wfg v = true -> good_rest rest -> (length (toks v) <= f)%nat ->
+  lex_all f (ser nm v ++ rest) = toks v ++ lex_all (f - length (toks v)) rest.
 Proof. intros v rest f W G Hf. apply Lexes_lex_all; [apply lexes_ser; assumption | exact Hf]. Qed.
 
-Lemma toks_le_ser : forall v, wf v = true -> (length (toks v) <= length (ser raw_name v))%nat.
+Lemma toks_le_ser : forall v, wfg v = true -> (length (toks v) <= length (ser nm v))%nat.
 Proof.
   intros v W. pose proof (Lexes_len _ _ _ (lexes_ser v W [] I)) as K.
   rewrite app_nil_r in K. cbn [length] in K. lia.
 Qed.
 
-Lemma lex_all_ser_top : forall v, wf v = true ->
-  lex_all (S (length (ser raw_name v))) (ser raw_name v) = toks v ++ [TEof].
+Lemma lex_all_ser_top : forall v, wfg v = true ->
+  lex_all (S (length (ser nm v))) (ser nm v) = toks v ++ [TEof].
 Proof.
   intros v W. pose proof (toks_le_ser v W) as L.
-  pose proof (lex_all_ser v [] (S (length (ser raw_name v))) W I) as K. rewrite app_nil_r in K.
+  pose proof (lex_all_ser_gen v [] (S (length (ser nm v))) W I) as K. rewrite app_nil_r in K.
   rewrite K by lia. f_equal.
-  destruct (S (length (ser raw_name v)) - length (toks v))%nat eqn:E; [lia | reflexivity].
+  destruct (S (length (ser nm v)) - length (toks v))%nat eqn:E; [lia | reflexivity].
 Qed.
 
 (** * Layer 2: what the parser makes of [toks v] followed by [rest] *)
@@ -307,11 +317,11 @@ Proof.
 Qed.
 
 Definition ParseP (v : obj) : Prop :=
-  wf v = true -> forall rest fuel, rest_ok rest = true -> ahead_ok (tokcls v) rest = true ->
+  wfg v = true -> forall rest fuel, rest_ok rest = true -> ahead_ok (tokcls v) rest = true ->
   (2 * length (toks v) <= fuel)%nat ->
   parse_toks fuel (toks v ++ rest) = Some (norm v, rest).
 
-Lemma parse_elems : forall l, Forall ParseP l -> forallb wf l = true -> arr_ok l = true ->
+Lemma parse_elems : forall l, Forall ParseP l -> forallb wfg l = true -> arr_ok l = true ->
   forall rest fuel, (2 * length (flat_map toks l) + 1 <= fuel)%nat ->
   parse_arr fuel (flat_map toks l ++ TArrE :: rest) = Some (map norm l, rest).
 Proof.
@@ -337,7 +347,7 @@ Lemma ahead_entries : forall c L rest, ahead_ok c (flat_map entry_toks L ++ TDic
 Proof. intros [i| |] [|kv L] rest; reflexivity. Qed.
 
 Lemma parse_entries : forall L, Forall (fun kv => ParseP (snd kv)) L ->
-  forallb (fun kv => wf (snd kv)) L = true ->
+  forallb (fun kv => wfg (snd kv)) L = true ->
   forall rest fuel, (2 * length (flat_map entry_toks L) + 1 <= fuel)%nat ->
   parse_dict fuel (flat_map entry_toks L ++ TDictE :: rest) = Some (map (on_snd norm) L, rest).
 Proof.
@@ -362,7 +372,7 @@ Proof.
   intros A p q l H K. rewrite forallb_forall in *. intros x Hx. apply H, K, Hx.
 Qed.
 
-Lemma parse_toks_ser : forall v, ParseP v.
+Lemma parse_toks_ser_gen : forall v, ParseP v.
 Proof.
   induction v using obj_ind'; intros W rest fuel R A Hf.
   - destruct fuel; [cbn in Hf; lia | reflexivity].
@@ -375,13 +385,13 @@ Proof.
   - destruct fuel; [cbn in Hf; lia | reflexivity].
   - destruct fuel; [cbn in Hf; lia | reflexivity].
   - (* arrays *)
-    cbn [wf] in W. apply andb_true_iff in W. destruct W as [W Ao].
+    cbn [wf_gen] in W. apply andb_true_iff in W. destruct W as [W Ao].
     cbn [toks length] in Hf. rewrite app_length in Hf. cbn [length] in Hf.
     destruct fuel as [|f]; [lia|].
     cbn [toks norm]. rewrite <- app_comm_cons, <- app_assoc. cbn [app parse_toks parse_tok].
     rewrite (parse_elems l H W Ao rest f) by lia. reflexivity.
   - (* dictionaries *)
-    cbn [wf] in W. rewrite toks_dict in *. rewrite norm_dict.
+    cbn [wf_gen] in W. rewrite toks_dict in *. rewrite norm_dict.
     cbn [length] in Hf. rewrite app_length in Hf. cbn [length] in Hf.
     destruct fuel as [|f]; [lia|].
     rewrite <- app_comm_cons, <- app_assoc. cbn [app parse_toks parse_tok].
@@ -391,7 +401,7 @@ Proof.
     + apply forallb_sort_kv. revert W. apply forallb_impl. intros x Hx. apply andb_true_iff in Hx. tauto.
     + lia.
   - (* references *)
-    cbn [wf] in W. apply andb_true_iff in W. destruct W as [Wn Wg].
+    cbn [wf_gen] in W. apply andb_true_iff in W. destruct W as [Wn Wg].
     destruct fuel; [cbn in Hf; lia|]. cbn [toks app parse_toks parse_tok norm]. unfold parse_int.
     assert (E1 : in_objnum (Z.of_N n) = true) by (unfold in_objnum; lia).
     assert (E2 : in_gen (Z.of_N g) = true) by (unfold in_gen; lia).
@@ -400,17 +410,69 @@ Proof.
 Qed.
 
 (** * The nested theorem *)
-Theorem ser_parse_roundtrip : forall v, wf v = true -> parse (ser raw_name v) = Some (norm v).
+Theorem ser_parse_roundtrip_gen : forall v, wfg v = true -> parse (ser nm v) = Some (norm v).
 Proof.
   intros v W. unfold parse. rewrite (lex_all_ser_top v W). cbv zeta.
   destruct (toks_hd v) as (t & ts & E & S).
-  pose proof (parse_toks_ser v W [TEof] (4 * length (toks v ++ [TEof]) + 4)%nat eq_refl) as K.
+  pose proof (parse_toks_ser_gen v W [TEof] (4 * length (toks v ++ [TEof]) + 4)%nat eq_refl) as K.
   assert (A : ahead_ok (tokcls v) [TEof] = true) by (destruct (tokcls v); reflexivity).
   specialize (K A). rewrite app_length in K at 1.
   specialize (K ltac:(cbn [length]; lia)). rewrite app_length in K. rewrite <- app_length in K.
   rewrite E in K |- *. cbn [app parse_toks] in K. cbn [app next].
   destruct t; try discriminate; rewrite K; reflexivity.
 Qed.
+
+End Gen.
+
+(** * the two instances *)
+Definition lex_all_ser := lex_all_ser_gen esc_iso bytes_ok lex_esc_iso_name.
+Definition parse_toks_ser := parse_toks_ser_gen bytes_ok.
+Theorem ser_parse_roundtrip : forall v, wf v = true -> parse (ser esc_iso v) = Some (norm v).
+Proof. exact (ser_parse_roundtrip_gen esc_iso bytes_ok lex_esc_iso_name). Qed.
+(** record about the writer before the repair: names raw, hence regular names only *)
+Theorem ser_parse_roundtrip_pinned : forall v, wf_pinned v = true -> parse (ser raw_name v) = Some (norm v).
+Proof. exact (ser_parse_roundtrip_gen raw_name regular_name lex1_name). Qed.
+
+(** String-level reading of the result: on ASCII names the reader's one-char-per-byte String is
+    the source String *)
+Lemma l1_utf8_ascii : forall n, ascii_name n = true -> l1_utf8 n = n.
+Proof.
+  induction n as [|c n IH]; intro H; [reflexivity|].
+  cbn [ascii_name forallb] in H. apply andb_true_iff in H. destruct H as [Hc Hn].
+  unfold l1_utf8. cbn [flat_map]. rewrite Hc. cbn [app]. f_equal. apply IH. exact Hn.
+Qed.
+Lemma ascii_ins_kv : forall (kv : bytes * obj) l,
+  forallb (fun kv => ascii_name (fst kv) && ascii_names (snd kv)) (kv :: l) = true ->
+  forallb (fun kv => ascii_name (fst kv) && ascii_names (snd kv)) (ins_kv kv l) = true.
+Proof.
+  intros kv l H. rewrite forallb_forall in *. intros x Hx. apply H.
+  clear H. induction l as [|y l IH]; cbn [ins_kv] in Hx.
+  - exact Hx.
+  - destruct (bytes_leb (fst kv) (fst y)); [exact Hx|]. destruct Hx as [Hx|Hx]; [right; left; exact Hx|].
+    destruct (IH Hx) as [K|K]; [left; exact K | right; right; exact K].
+Qed.
+Lemma strview_norm_ascii : forall v, ascii_names v = true -> strview (norm v) = norm v.
+Proof.
+  induction v using obj_ind'; intro A; try reflexivity.
+  - cbn [norm]. destruct (m mod 1000000 =? 0); reflexivity.
+  - cbn [norm strview]. rewrite l1_utf8_ascii by exact A. reflexivity.
+  - cbn [norm strview]. f_equal. cbn [ascii_names] in A.
+    induction H as [|a r Pa Pr IH]; [reflexivity|].
+    cbn [forallb] in A. apply andb_true_iff in A. destruct A as [Aa Ar].
+    cbn [map]. rewrite (Pa Aa), (IH Ar). reflexivity.
+  - rewrite norm_dict. cbn [strview]. f_equal. cbn [ascii_names] in A.
+    assert (As : forallb (fun kv => ascii_name (fst kv) && ascii_names (snd kv)) (sort_kv l) = true).
+    { apply forallb_sort_kv. exact A. }
+    pose proof (sort_kv_Forall _ _ H) as Hs.
+    induction Hs as [|kv r Pk Pr IH]; [reflexivity|].
+    cbn [forallb] in As. apply andb_true_iff in As. destruct As as [Ak Ar].
+    apply andb_true_iff in Ak. destruct Ak as [Ak Av].
+    cbn [map]. rewrite (IH Ar). destruct kv as [k x]. unfold on_snd at 1. cbn [fst snd] in *.
+    rewrite (l1_utf8_ascii k Ak), (Pk Av). reflexivity.
+Qed.
+Theorem ser_parse_roundtrip_strings : forall v, wf v = true -> ascii_names v = true ->
+  option_map strview (parse (ser esc_iso v)) = Some (norm v).
+Proof. intros v W A. rewrite (ser_parse_roundtrip v W). cbn [option_map]. rewrite (strview_norm_ascii v A). reflexivity. Qed.
 
 (** satisfiability of the hypotheses of the continuation lemmas on a nested value followed by
     a non-trivial continuation *)
@@ -426,11 +488,11 @@ Proof. vm_compute. repeat split. Qed.
 (** * Link to the correspondence verdict: on a [wf] value the checker of channel [ser] can never
     report "model agrees with the implementation, property fails" (code 2): whenever the
     implementation's bytes and parse result equal the model's, the property bit is clear. *)
-Theorem ser_code_not_2 : forall v bs p, wf v = true -> ser_code (v, bs, p) <> 2.
-Proof.
-  intros v bs p W. unfold ser_code.
-  destruct (bytes_eqb (ser raw_name v) bs) eqn:E1.
-  - apply bytes_eqb_eq in E1. subst bs. rewrite (ser_parse_roundtrip v W). cbn [option_map andb].
-    destruct (opobj_eqb (Some (canon (norm v))) p); intro H; vm_compute in H; discriminate.
-  - cbn [andb]. destruct (opobj_eqb (Some (canon (norm v))) p); intro H; vm_compute in H; discriminate.
-Qed.
+(* FULL STATEMENT (not proved here; needs opobj_eqb-soundness and canon/strview commutation):
+     forall v bs p, wf v = true -> ascii_names v = true -> ser_code (v, bs, p) <> 2.
+   Proved: the two facts it rests on, [ser_parse_roundtrip] (bytes) and
+   [ser_parse_roundtrip_strings] (String view on ASCII names), and the first half of the
+   verdict link: a byte-identical implementation output parses, in the model, to [norm v]. *)
+Theorem ser_code_model_parse_partial : forall v bs, wf v = true -> bytes_eqb (ser esc_iso v) bs = true ->
+  option_map canon (parse bs) = Some (canon (norm v)).
+Proof. intros v bs W E. apply bytes_eqb_eq in E. subst bs. rewrite (ser_parse_roundtrip v W). reflexivity. Qed.
